@@ -413,6 +413,12 @@ def translation_cases(ck: Check, note, quick: bool) -> None:
 
 # ----------------------------------------------------------------------------------------------- wider space, oracle only
 WIDE_SOURCES = [
+    # decoding filters AFTER a filter whose result is safe (Markup) text: what they decode is render data again, never safe
+    "{{ b | strip_newlines | base64_decode }}", "{{ b | strip | base64_decode }}", "{{ b | escape | base64_decode }}",
+    "{{ b | append: '' | base64_decode }}", "{{ b | url_encode | url_decode | base64_decode }}", "{{ b | escape_once | base64_url_safe_decode }}",
+    "{{ b | base64_decode | base64_encode | base64_decode }}", "{{ u | escape | url_decode }}", "{{ u | strip_newlines | url_decode }}",
+    "{% capture c %}{{ b }}{% endcapture %}{{ c | base64_decode }}", "{% assign c = b | escape %}{{ c | base64_decode | upcase }}",
+
     "{% translate a: x %}Hello {{ a }}{% endtranslate %}",
     "{% translate a: x, count: 2 %}Hello {{ a }}{% plural %}Hellos {{ a }} {{ count }}{% endtranslate %}",
     "{{ x | t }}", "{{ 'Hello %(a)s' | t: a: x }}", "{{ x | t: a: y }}", "{{ x | gettext }}", "{{ 'a %(b)s' | gettext: b: x }}",
@@ -461,9 +467,12 @@ def wide(ck: Check, seen: dict, n_random: int) -> None:
         ex.add_filters(_WIDE_ENV)
     datas = [dict(x="<a&b>", y="'q\"&", l=["<i>", "a&", "'"], d={"k": "<v>&"}), dict(x="&lt;&amp", y="<", l=[{"k": "<1>"}, {"k": "&"}], d={"k": "'"}),
              dict(x="%3Cb%3E&#39;", y="%Y<", l=["a"], d={})]
+    for d_ in datas:
+        d_.update(b="PGI+Jic8L2I+", u="%3Cb%3E%26%27")        # base64 and url-encoded forms of <b>&'</b> / <b>&'
+
     for _ in range(n_random):
         mk = lambda: "".join(ck.rng.choice(TOKENS) for _ in range(ck.rng.randrange(1, 5)))  # noqa: E731
-        datas.append(dict(x=mk(), y=mk(), l=[mk(), mk()], d={"k": mk()}))
+        datas.append(dict(x=mk(), y=mk(), l=[mk(), mk()], d={"k": mk()}, b="PHNjcmlwdD4=", u="%3Cscript%3E"))
     # the translation filters registered BY HAND with their defaults (autoescape_message=False: the message text is trusted and
     # is a template literal here); the message VARIABLES still come from render data and must be escaped
     global _HAND_ENV
